@@ -23,7 +23,7 @@ ASSUMPTIONS = ["NSS key log line = label, one space, 64 hex digits, one space, a
 LABELS = ["RSA", "CLIENT_RANDOM", "CLIENT_EARLY_TRAFFIC_SECRET", "CLIENT_HANDSHAKE_TRAFFIC_SECRET", "SERVER_HANDSHAKE_TRAFFIC_SECRET",
           "CLIENT_TRAFFIC_SECRET_0", "SERVER_TRAFFIC_SECRET_0", "EARLY_EXPORTER_SECRET", "EXPORTER_SECRET"]
 
-DELIVERIES = ["file", "file-crlf-comments-upper", "dsb-first", "two-dsbs", "file+dsb", "dsb-only-no-s", "dsb-after-packets"]
+DELIVERIES = ["file", "file-all-upper", "file-crlf-comments-upper", "dsb-first", "two-dsbs", "file+dsb", "dsb-only-no-s", "dsb-after-packets"]
 
 
 def configs(tier, seed):
@@ -302,6 +302,9 @@ def _delivery_case(cfg, keylog_text, n_packets):
     half = max(1, len(lines) // 2)
     if d == "file":
         return ["-s", "k.log"], {"k.log": keylog_text}, []
+    if d == "file-all-upper":
+        up = [l.split(" ")[0] + " " + l.split(" ")[1].upper() + " " + l.split(" ")[2].upper() for l in lines]
+        return ["-s", "k.log"], {"k.log": "\n".join(up) + "\n"}, []
     if d == "file-crlf-comments-upper":
         deco = ["# comment line", ""] + [l.split(" ")[0] + " " + l.split(" ")[1].upper() + " " + l.split(" ")[2].upper() for l in lines[:half]] + \
                ["UNRELATED text that is not a key"] + lines[half:] + [lines[0]]
